@@ -56,7 +56,7 @@ func (r *fragReader) Read(p []byte) (int, error) {
 }
 
 func runC09(c *mon.Ctx) {
-	c.Each("files", c.N(1000, 12000), func(i int64, r *mon.Rand) {
+	c.Each("files", c.N(1000, 60_000), func(i int64, r *mon.Rand) {
 		f := gen.SMFFile(r, gen.FileOpts{MaxTracks: 4, MaxEvents: 12, AllowBig: false, Aliens: i%2 == 0, PaddedVLQ: true, Running: true})
 		if i%10 == 0 {
 			// a payload above the chunked-read threshold
